@@ -104,6 +104,9 @@ def run_case(case):
     for k in range(P):
         layout = Layout('v_parallel_1d', [P], [0, 2, 1], eta, [k])
         op = adv.ParallelGradient(bs[1], eta, layout, c, order)
+        # a second live operator with a different order (built after, never used): must not influence the first
+        other = [o for o in range(2, 7) if o != order and nz > o]
+        decoy = adv.ParallelGradient(bs[1], eta, layout, c, other[(k + order) % len(other)]) if other else None
         r0 = int(layout.starts[0])
         for i in range(int(layout.shape[0])):
             I = r0 + i
